@@ -8,36 +8,29 @@ From Coq Require Import Lia.
 Definition lab_char (c : ascii) : bool := is_digit c || Ascii.eqb c " "%char.
 
 (* label field of five digits/blanks; statement text non-blank at both ends; the whole line,
-   inline comment included, within 72 columns; one physical line *)
+   inline comment included, within 72 columns; one physical line; it is a statement line: where
+   column 6 is blank its first non-blank character is not a '!' *)
 Definition wf_fxline (l : fxline) : Prop :=
   length (fx_label l) = 5 /\ Forall (fun c => lab_char c = true) (fx_label l) /\
   nsfirst (fx_text l) /\ nslast (fx_text l) /\
   fx_ind l + length (fx_text l) + fx_pad l + length (render_comment (fx_comment l)) <= 66 /\
   ~ In nl (fx_text l) /\
-  match fx_comment l with Some t => ~ In nl t | None => True end.
+  match fx_comment l with Some t => ~ In nl t | None => True end /\
+  (is_space (fx_c6 l) = true -> head_is bang (fx_text l) = false).
 
 Definition is_initial (l : fxline) : Prop := fx_c6 l = " "%char \/ fx_c6 l = "0"%char.
 Definition is_continuation (l : fxline) : Prop :=
   is_space (fx_c6 l) = false /\ fx_c6 l <> "0"%char /\ fx_label l = spaces 5.
 
 (* comment lines: C, c, * or ! in column 1 (not an OpenMP sentinel); blank lines: any width;
-   comment lines whose '!' stands in columns 2-5 *)
+   comment lines whose first non-blank character is a '!' in any column but columns 1 and 6 *)
 Definition wf_fxirr (i : fxirr) : Prop :=
   match i with
   | FxComment c0 rest =>
     contains_ch c0 (s "cC*!") = true /\ head_is "$"%char rest = false /\ ~ In nl rest
   | FxBlank n => True
-  | FxBang ind rest => 1 <= ind <= 4 /\ ~ In nl rest
-  end.
-(* ... by the standard the '!' of a comment line may stand in any column but column 6 *)
-Definition wf_fxirr_std (i : fxirr) : Prop :=
-  match i with
   | FxBang ind rest => 1 <= ind /\ ind <> 5 /\ ~ In nl rest
-  | _ => wf_fxirr i
   end.
-(* the region of the open finding: a '!' comment line that starts in column 7 or beyond *)
-Definition early_irr (i : fxirr) : Prop :=
-  match i with FxBang ind _ => ind <= 4 | _ => True end.
 
 (* ---------- analyse ---------- *)
 
@@ -121,6 +114,29 @@ Lemma fx_field_length l :
   length (fx_field l) = fx_ind l + length (fx_text l) + fx_pad l + length (render_comment (fx_comment l)).
 Proof. unfold fx_field, fx_code. rewrite !app_length. unfold spaces. rewrite !repeat_length. lia. Qed.
 
+(* a statement line is not taken for a '!' comment line: its first non-blank character is a label
+   digit, the character of column 6, or the first character of its statement text *)
+Lemma bang_first_stmt a b c d e c6 rest :
+  lab_char a = true -> lab_char b = true -> lab_char c = true -> lab_char d = true -> lab_char e = true ->
+  (is_space c6 = true -> starts_with (s "!") (lstrip rest) = false) ->
+  starts_with (s "!") (lstrip ([a; b; c; d; e] ++ c6 :: rest))
+  && negb (length ([a; b; c; d; e] ++ c6 :: rest) - length (lstrip ([a; b; c; d; e] ++ c6 :: rest)) =? 5) = false.
+Proof.
+  intros Ha Hb Hc Hd He H6.
+  assert (L : forall x y, lab_char x = true -> starts_with (s "!") (x :: y) = false).
+  { intros x y Hx. cbn [s list_ascii_of_string starts_with]. fold bang. now rewrite (lab_not_bang x Hx). }
+  cbn [app lstrip].
+  destruct (is_space a); [|now rewrite (L a _ Ha)].
+  destruct (is_space b); [|now rewrite (L b _ Hb)].
+  destruct (is_space c); [|now rewrite (L c _ Hc)].
+  destruct (is_space d); [|now rewrite (L d _ Hd)].
+  destruct (is_space e); [|now rewrite (L e _ He)].
+  destruct (is_space c6).
+  - now rewrite (H6 eq_refl).
+  - replace (length (a :: b :: c :: d :: e :: c6 :: rest) - length (c6 :: rest)) with 5 by (cbn [length]; lia).
+    cbn [Nat.eqb negb]. apply andb_false_r.
+Qed.
+
 (* the analysis of a statement line that fits in 72 columns *)
 Lemma analyse_fxline ll l :
   wf_fxline l ->
@@ -130,7 +146,7 @@ Lemma analyse_fxline ll l :
      f_cont := negb (is_space (fx_c6 l) || Ascii.eqb (fx_c6 l) "0"%char);
      f_long := false; f_omp := false; f_excess := [] |}.
 Proof.
-  intros (Hlen & Hlab & Hns & _ & Hw & _).
+  intros (Hlen & Hlab & Hns & _ & Hw & _ & _ & Hbang).
   destruct (length5 _ Hlen) as (a & b & c & d & e & El).
   unfold render_fxline, label_part. rewrite El in *. clear El.
   inversion Hlab as [|? ? Ha Hl1]; subst. inversion Hl1 as [|? ? Hb Hl2]; subst.
@@ -141,9 +157,17 @@ Proof.
     apply (strip_nonblank _ t0); [|exact Hns].
     apply in_or_app. right. right. apply in_or_app. left. unfold fx_field, fx_code. rewrite Et.
     apply in_or_app. left. apply in_or_app. right. left. reflexivity. }
+  assert (Hbf : starts_with (s "!") (lstrip ([a; b; c; d; e] ++ fx_c6 l :: fx_field l ++ [nl]))
+                && negb (length ([a; b; c; d; e] ++ fx_c6 l :: fx_field l ++ [nl])
+                         - length (lstrip ([a; b; c; d; e] ++ fx_c6 l :: fx_field l ++ [nl])) =? 5) = false).
+  { apply bang_first_stmt; try assumption. intros H6. specialize (Hbang H6).
+    unfold fx_field, fx_code. rewrite <- !app_assoc, lstrip_spaces.
+    unfold nsfirst in Hns. destruct (fx_text l) as [|t0 tx]; [destruct Hns|].
+    cbn [app]. rewrite (lstrip_ns t0 _ Hns). cbn [s list_ascii_of_string starts_with]. fold bang.
+    cbn [head_is] in Hbang. now rewrite Hbang. }
   set (code := fx_field l) in *.
   assert (Hcl : length code <= 66) by (unfold code; rewrite fx_field_length; lia).
-  unfold analyse. rewrite Hblank.
+  unfold analyse. rewrite Hblank, Hbf.
   assert (Hn : length ([a; b; c; d; e] ++ fx_c6 l :: code ++ [nl]) = 7 + length code).
   { simpl. rewrite app_length. simpl. lia. }
   rewrite Hn.
@@ -227,6 +251,9 @@ Lemma analyse_blank ll n : exists lg,
 Proof.
   destruct n as [|[|[|[|[|[|[|m]]]]]]]; try (eexists; reflexivity).
   unfold analyse. rewrite strip_blank_line.
+  rewrite (lstrip_all_ws (spaces _ ++ [nl]))
+    by (apply Forall_app; split; [apply spaces_ws|constructor; [reflexivity|constructor]]).
+  cbn [starts_with s list_ascii_of_string andb orb].
   unfold spaces. cbn [repeat app length firstn slice skipn from Nat.sub].
   set (k := length (repeat " "%char m ++ [nl])).
   cbn [Nat.ltb Nat.leb str_empty orb negb andb contains_ch s list_ascii_of_string Ascii.eqb Bool.eqb
@@ -235,25 +262,25 @@ Proof.
   eexists. reflexivity.
 Qed.
 
-(* a line whose first non-blank character is a '!' in columns 2-5 passes unchanged *)
-Lemma analyse_bang ll ind rest : 1 <= ind <= 4 ->
+(* a line whose first non-blank character is a '!' in any column but 1 and 6 passes unchanged *)
+Lemma analyse_bang ll ind rest : 1 <= ind -> ind <> 5 ->
   exists lg ex, analyse ll (spaces ind ++ bang :: rest ++ [nl]) =
   {| f_conv := spaces ind ++ bang :: rest ++ [nl]; f_regular := false; f_cont := false; f_long := lg;
      f_omp := false; f_excess := ex |}.
 Proof.
-  intros H. destruct ind as [|[|[|[|[|ind]]]]]; try lia;
-    unfold analyse, spaces; cbn [repeat app length firstn slice skipn Nat.sub Nat.ltb Nat.leb];
-    change (contains_ch " "%char (s "cC*!")) with false;
-    change (str_eqb [" "%char] (s "#")) with false.
-  all: match goal with
-       | |- context [contains_ch bang ?x && negb false] =>
-         assert (Hb : contains_ch bang x = true)
-           by (cbn [contains_ch]; change (Ascii.eqb bang " "%char) with false; rewrite Ascii.eqb_refl;
-               cbn [orb]; reflexivity);
-         rewrite Hb
-       end.
-  all: cbn [andb negb orb]; rewrite !andb_false_r; cbv beta iota zeta; rewrite ?andb_false_r;
-       eexists _, _; reflexivity.
+  intros H1 H5. unfold analyse.
+  rewrite lstrip_spaces, (lstrip_ns bang _ eq_refl).
+  assert (Hd : length (spaces ind ++ bang :: rest ++ [nl]) - length (bang :: rest ++ [nl]) = ind).
+  { rewrite app_length. unfold spaces. rewrite repeat_length. lia. }
+  rewrite Hd.
+  assert (H5' : (ind =? 5) = false) by now apply Nat.eqb_neq.
+  rewrite H5'. change (starts_with (s "!") (bang :: rest ++ [nl])) with true.
+  destruct ind as [|k]; [lia|]. unfold spaces. cbn [repeat app firstn].
+  change (contains_ch " "%char (s "cC*!")) with false.
+  change (str_eqb [" "%char] (s "#")) with false.
+  cbn [andb negb]. rewrite !orb_true_r. cbn [andb negb orb].
+  rewrite !andb_false_r. cbv beta iota zeta. rewrite ?andb_false_r.
+  eexists _, _. reflexivity.
 Qed.
 
 (* ---------- the line stack ---------- *)
@@ -271,7 +298,7 @@ Proof.
   destruct i as [c0 rest|n|ind rest]; intros H; cbn [render_fxirr irr_conv].
   - destruct (analyse_comment ll c0 rest H) as (lg & ex & E). rewrite E. split; reflexivity.
   - destruct (analyse_blank ll n) as (lg & E). rewrite E. split; reflexivity.
-  - destruct H as (H & _). destruct (analyse_bang ll ind rest H) as (lg & ex & E). rewrite E. split; reflexivity.
+  - destruct H as (H1 & H5 & _). destruct (analyse_bang ll ind rest H1 H5) as (lg & ex & E). rewrite E. split; reflexivity.
 Qed.
 
 (* irregular lines pile up on the stack *)
@@ -360,36 +387,9 @@ Definition wf_stmt_of (P : fxirr -> Prop) (st : fxstmt) : Prop :=
 Definition wf_item_of (P : fxirr -> Prop) (it : fxitem) : Prop :=
   match it with FxIrr i => P i | FxStmt st => wf_stmt_of P st end.
 
-(* the class of the theorems: '!' comment lines start in columns 1-5 *)
 Definition wf_conts := wf_conts_of wf_fxirr.
 Definition wf_stmt := wf_stmt_of wf_fxirr.
 Definition wf_item := wf_item_of wf_fxirr.
-(* the class of the full statement: '!' comment lines start in any column but column 6 *)
-Definition wf_item_std := wf_item_of wf_fxirr_std.
-Definition early_item (it : fxitem) : Prop :=
-  match it with
-  | FxIrr i => early_irr i
-  | FxStmt st => Forall (fun p => Forall early_irr (fst p)) (fs_conts st)
-  end.
-
-Lemma early_wf_irr i : wf_fxirr_std i -> early_irr i -> wf_fxirr i.
-Proof.
-  destruct i as [c0 rest|n|ind rest]; cbn [wf_fxirr_std wf_fxirr early_irr]; tauto.
-Qed.
-
-Lemma early_wf_item it : wf_item_std it -> early_item it -> wf_item it.
-Proof.
-  destruct it as [i|st]; [apply early_wf_irr|].
-  intros (A & B & C & D) E. split; [exact A|]. split; [exact B|]. split; [|exact D].
-  unfold wf_conts_of in *. cbn [early_item] in E. rewrite Forall_forall in *. intros p Hp.
-  destruct (C p Hp) as (C1 & C2 & C3). split; [|split; assumption].
-  specialize (E p Hp). rewrite Forall_forall in *. intros i Hi. apply early_wf_irr; auto.
-Qed.
-
-Lemma early_wf f : Forall wf_item_std f -> Forall early_item f -> Forall wf_item f.
-Proof.
-  intros A B. rewrite Forall_forall in *. intros it Hit. apply early_wf_item; auto.
-Qed.
 
 Definition stmt_lines (st : fxstmt) : list str :=
   flat_map (fun q => fx_conv_continued (fst q) :: map irr_conv (snd q))
@@ -719,19 +719,16 @@ Qed.
 
 (* C14, full: a fixed-form file reads as its free-form equivalent by the standard's rules *)
 Definition statement_C14 : Prop :=
-  forall ll f, Forall wf_item_std f ->
+  forall ll f, Forall wf_item f ->
   read_all default_cfg (map chomp (convert_to_free ll (render_fixed f)))
   = read_all default_cfg (render_file (std_free_of f)).
 
-(* ... and it holds for every file in which no character literal is continued across lines and
-   every '!' comment line starts in columns 1-5 *)
+(* ... and it holds for every file in which no character literal is continued across lines *)
 Theorem partial_C14 ll f :
-  Forall wf_item_std f -> Forall closed_item f -> Forall early_item f ->
+  Forall wf_item f -> Forall closed_item f ->
   read_all default_cfg (map chomp (convert_to_free ll (render_fixed f)))
   = read_all default_cfg (render_file (std_free_of f)).
-Proof.
-  intros H Hc He. now rewrite (std_free_closed f Hc), (fixed_as_free ll f (early_wf f H He) Hc).
-Qed.
+Proof. intros H Hc. now rewrite (std_free_closed f Hc), (fixed_as_free ll f H Hc). Qed.
 
 Corollary fixed_statements ll f :
   Forall wf_item f -> Forall closed_item f -> Forall item_ok (free_of f) ->
@@ -748,13 +745,11 @@ Ltac wf_tac :=
          | |- Forall _ (_ :: _) => constructor
          | |- Forall _ [] => constructor
          | |- wf_item _ => unfold wf_item
-         | |- wf_item_std _ => unfold wf_item_std
          | |- wf_item_of _ _ => cbn [wf_item_of]
          | |- wf_stmt_of _ _ => unfold wf_stmt_of; cbn [fs_first fs_conts]
          | |- wf_conts_of _ _ => unfold wf_conts_of
-         | |- wf_fxirr_std _ => cbn [wf_fxirr_std wf_fxirr]
-         | |- early_item _ => cbn [early_item fs_conts]
-         | |- early_irr _ => cbn [early_irr]
+         | |- (_ = _) -> _ =>
+           let H := fresh in intro H; first [reflexivity | discriminate H | (vm_compute in H; discriminate H)]
          | |- closed_item _ => cbn [closed_item fs_first fs_conts closed_breaks mkfx fx_text]
          | |- wf_stmt _ => unfold wf_stmt; cbn [fs_first fs_conts]
          | |- wf_conts _ => unfold wf_conts
@@ -782,7 +777,7 @@ Definition witness_literal : list fxitem :=
   [FxStmt {| fs_first := mkfx (spaces 5) " " 0 (s "s = 'ab") 0 None;
              fs_conts := [([], mkfx (spaces 5) "&" 0 (s "cd'") 0 None)] |}].
 
-Lemma witness_literal_wf : Forall wf_item_std witness_literal.
+Lemma witness_literal_wf : Forall wf_item witness_literal.
 Proof. unfold witness_literal. wf_tac. Qed.
 
 Example literal_split_outputs :
@@ -880,50 +875,43 @@ Qed.
 
 (* ---------- '!' as continuation mark and as comment initiator ---------- *)
 
-(* a comment line whose '!' stands in column 7, between a line and its continuation line
+(* a comment line whose '!' stands in column 7, between a line and its continuation line (a repaired
+   defect: the line used to be taken for a statement line and got the '&')
          x = 1   /        ! note   /        &  + 2                                      *)
-Definition witness_indented : list fxitem :=
+Definition regress_indented : list fxitem :=
   [FxStmt {| fs_first := mkfx (spaces 5) " " 0 (s "x = 1") 0 None;
              fs_conts := [([FxBang 6 (s " note")], mkfx (spaces 5) "&" 2 (s "+ 2") 0 None)] |}].
 
-Lemma witness_indented_wf : Forall wf_item_std witness_indented.
-Proof. unfold witness_indented. wf_tac. Qed.
-
-Example indented_comment_outputs :
-  render_fixed witness_indented = [s "      x = 1" ++ [nl]; s "      ! note" ++ [nl]; s "     &  + 2" ++ [nl]] /\
-  Forall closed_item witness_indented /\ ~ Forall early_item witness_indented /\
-  map chomp (convert_to_free true (render_fixed witness_indented)) = [s "x = 1"; s " & ! note"; s "  + 2"] /\
-  read_all default_cfg (map chomp (convert_to_free true (render_fixed witness_indented)))
-  = ROk [s "x = 1"; s "+ 2"] /\
-  read_all default_cfg (render_file (std_free_of witness_indented)) = ROk [s "x = 1 + 2"].
+Example regress_indented_ok :
+  Forall wf_item regress_indented /\ Forall closed_item regress_indented /\
+  render_fixed regress_indented = [s "      x = 1" ++ [nl]; s "      ! note" ++ [nl]; s "     &  + 2" ++ [nl]] /\
+  map chomp (convert_to_free true (render_fixed regress_indented)) = [s "x = 1 &"; s "      ! note"; s "  + 2"] /\
+  render_file (free_of regress_indented) = [s "x = 1 &"; s "      ! note"; s "  + 2"] /\
+  read_all default_cfg (map chomp (convert_to_free true (render_fixed regress_indented)))
+  = ROk [s "x = 1 + 2"].
 Proof.
-  split; [reflexivity|]. split; [unfold witness_indented; wf_tac|].
-  split; [|repeat match goal with |- _ /\ _ => split end; vm_compute; reflexivity].
-  intros H. inversion H as [|? ? He _]. cbn [early_item fs_conts] in He.
-  inversion He as [|? ? Hp _]. cbn [fst] in Hp. inversion Hp as [|? ? Hi _]. cbn [early_irr] in Hi. lia.
+  split; [unfold regress_indented; wf_tac|]. split; [unfold regress_indented; wf_tac|].
+  repeat match goal with |- _ /\ _ => split end; vm_compute; reflexivity.
 Qed.
 
-Theorem refuted_indented_comment : ~ statement_C14.
-Proof. intros H. specialize (H true witness_indented witness_indented_wf). vm_compute in H. discriminate. Qed.
-
 (* in the class of the theorems: '!' in column 6 marks a continuation line (three times here, once
-   followed by text that looks like a comment mark, once on a line with an inline comment), and
-   comment lines whose '!' stands in columns 2 to 5 pass as comment lines *)
+   on a line with an inline comment), and comment lines whose '!' stands in columns 2, 3, 5, 7 and
+   31 pass as comment lines *)
 Definition example_bang : list fxitem :=
   [FxIrr (FxBang 2 (s " in column 3"));
    FxStmt {| fs_first := mkfx (s "   10") " " 0 (s "call f(a,") 1 (Some (s " first"));
              fs_conts := [([FxBang 1 (s ""); FxBang 4 (s " col 5")], mkfx (spaces 5) "!" 2 (s "b,") 0 (Some (s " note")));
-                          ([], mkfx (spaces 5) "!" 0 (s "c,") 0 None);
+                          ([FxBang 6 (s " col 7"); FxBang 30 (s "far")], mkfx (spaces 5) "!" 0 (s "c,") 0 None);
                           ([FxBlank 8], mkfx (spaces 5) "!" 1 (s "d)") 0 None)] |}].
 
 Example example_bang_ok :
   Forall wf_item example_bang /\ Forall closed_item example_bang /\ Forall item_ok (free_of example_bang) /\
   render_fixed example_bang
   = map (fun x => x ++ [nl])
-        [s "  ! in column 3"; s "   10 call f(a, ! first"; s " !"; s "    ! col 5"; s "     !  b,! note"; s "     !c,";
+        [s "  ! in column 3"; s "   10 call f(a, ! first"; s " !"; s "    ! col 5"; s "     !  b,! note"; s "      ! col 7"; spaces 30 ++ s "!far"; s "     !c,";
          s "        "; s "     ! d)"] /\
   map chomp (convert_to_free true (render_fixed example_bang))
-  = [s "  ! in column 3"; s "10 call f(a, & ! first"; s " !"; s "    ! col 5"; s "  b, & ! note"; s "c, &"; s "  "; s " d)"] /\
+  = [s "  ! in column 3"; s "10 call f(a, & ! first"; s " !"; s "    ! col 5"; s "  b, & ! note"; s "      ! col 7"; spaces 30 ++ s "!far"; s "c, &"; s "  "; s " d)"] /\
   read_all default_cfg (map chomp (convert_to_free true (render_fixed example_bang)))
   = ROk [s "10 call f(a, b, c, d)"].
 Proof.
